@@ -71,7 +71,12 @@ def call_builtin(it, fn: VBuiltin, args, kwargs):
         if name.startswith("logging.") or name.split(".")[0] in ("log", "logger") or name.startswith("Logger."):
             return NONE  # logging calls are dropped (their arguments were evaluated already)
         raise OutOfSubset(f"call of unmodelled builtin/library function {name}")
-    return h(it, fn.self_obj, args, kwargs)
+    try:
+        return h(it, fn.self_obj, args, kwargs)
+    except (IndexError, KeyError, AttributeError, TypeError) as e:
+        # an internal error of a MODEL (typically: arguments passed by keyword where the model reads them by position) is a limit of the
+        # machinery, never a verdict on the code and never a crash of the check
+        raise OutOfSubset(f"model of {name} cannot bind its arguments ({type(e).__name__}: {str(e)[:80]})")
 
 
 def argn(args, kwargs, i, name, default=None):
@@ -1880,7 +1885,7 @@ def _ih_write(it, self, args, kw):
 def _bin2hex(it, self, args, kw):
     s = _s()
     H = _hexfns()
-    fin, fout = args[0], args[1]
+    fin, fout = argn(args, kw, 0, "fin"), argn(args, kw, 1, "fout")
     off = argn(args, kw, 2, "offset", VInt(0))
     s.note(it, "intelhex.bin2hex")
     pin = s.path_term(it, fin)
